@@ -95,6 +95,25 @@ fn lax_compose_case(t: &mut Tape, ctx: &mut Ctx) -> CheckResult {
         ensure!(ctx, Arrow::compose(&lf, &lb).is_none(), "compose-rejects-mismatch", "lax compose returned a diagram although the types differ");
         ensure!(ctx, (&lf >> &lb).is_none(), "compose-rejects-mismatch", "lax >> returned a diagram although the types differ ({:?} vs {:?})", f.d.target_type(), bad.d.source_type());
     }
+    // arities that differ in either direction (the shorter boundary agreeing with a prefix of the longer)
+    {
+        ctx.sub("compose-rejects-mismatch");
+        let mut longer = g.clone();
+        let extra = t.range(1, 2);
+        for _ in 0..extra {
+            longer.d.nodes.push(t.choice(al.nl) as u32);
+            longer.d.s.push(longer.d.nodes.len() - 1);
+        }
+        let lf = to_lax(&f);
+        let ll = to_lax(&longer);
+        ensure!(ctx, Arrow::compose(&lf, &ll).is_none() && (&lf >> &ll).is_none() && lf.lax_compose(&ll).is_none(), "compose-rejects-mismatch", "a lax composition accepted a right operand with {extra} more input(s) than the left operand has outputs");
+        if !g.d.s.is_empty() {
+            let mut shorter = g.clone();
+            shorter.d.s.pop();
+            let ls = to_lax(&shorter);
+            ensure!(ctx, Arrow::compose(&lf, &ls).is_none() && (&lf >> &ls).is_none() && lf.lax_compose(&ls).is_none(), "compose-rejects-mismatch", "a lax composition accepted a right operand with one input fewer than the left operand has outputs");
+        }
+    }
     if !f.d.t.is_empty() && (!f.q.is_empty() || !g.q.is_empty()) {
         ctx.nontrivial(&(&f, &g));
     }
